@@ -113,7 +113,7 @@ var c11Programs = []string{
 	`local function loop() tick(); return loop() end; loop()`,
 	`::top:: tick(); goto top`,
 	`while true do pcall(function() while true do tick() end end) end`,
-	`local function work() tick(); error('again') end; while true do xpcall(work, function(m) for i = 1, 3 do tick() end; return m end) end`,
+	`local function work() tick(); error('again') end; while true do xpcall(work, function(m) for i = 1, 10 do tick() end; return m end) end`,
 	`local t = setmetatable({}, {__index = function(t, k) tick(); return t[k + 1] end}); while true do pcall(function() return t[1] end) end`,
 	`local co = coroutine.wrap(function() while true do tick(); coroutine.yield() end end); while true do tick(); co() end`,
 	`local outer = coroutine.wrap(function() local inner = coroutine.wrap(function() while true do tick() end end); inner() end); outer()`,
